@@ -8,7 +8,7 @@ Q_ASYNC = 195840   # 2^8 * 3^2 * 5 * 17: every ramp increment of the model const
 PREDICATES = {
     "C03": ["C03_CallOk"],
     "C04": ["C04_Bounds", "C04_Consumed", "C04_Written", "C04_Allocate", "C04_LifeBounds"],
-    "C06": ["C06_Increasing", "C06_StepInRange", "C06_RampMonotone", "C06_Supplied"],
+    "C06": ["C06_Increasing", "C06_StepInRange", "C06_RampMonotone", "C06_RampMoves", "C06_Supplied"],
     "C07": ["C07_NoDrift", "C07_FftExact", "C07_FftBlock"],
     "C09": ["C09_NoHeap"],
     # "...then behaves as set_resample_ratio(original*x)": the spacing of the evaluation instants after an
